@@ -117,17 +117,9 @@ func (p *process) Spawn(
 		Args:           args,
 	}
 
-	pid, err := p.node.spawn(factory, opts)
-	if err != nil {
-		return pid, err
-	}
-
-	if options.LinkChild {
-		// method LinkPID is not allowed to be used in the initialization state,
-		// so we use linking manually.
-		p.node.targetManager.AddLink(p.pid, pid)
-	}
-	return pid, err
+	// with options.LinkChild the link with the child process is created by
+	// spawn (before the child process gets registered and is able to terminate)
+	return p.node.spawn(factory, opts)
 }
 
 func (p *process) SpawnRegister(
@@ -151,17 +143,9 @@ func (p *process) SpawnRegister(
 		Application:    p.application,
 		Args:           args,
 	}
-	pid, err := p.node.spawn(factory, opts)
-	if err != nil {
-		return pid, err
-	}
-
-	if options.LinkChild {
-		// method LinkPID is not allowed to be used in the initialization state,
-		// so we use linking manually.
-		p.node.targetManager.AddLink(p.pid, pid)
-	}
-	return pid, err
+	// with options.LinkChild the link with the child process is created by
+	// spawn (before the child process gets registered and is able to terminate)
+	return p.node.spawn(factory, opts)
 }
 
 func (p *process) SpawnMeta(behavior gen.MetaBehavior, options gen.MetaOptions) (gen.Alias, error) {
